@@ -31,7 +31,7 @@ ASSUMPTIONS = [
     "PyElastica's own save_state/load_state and PositionVerlet are third party (used as the documented body checkpoint)",
     "the scratch-poison differential is bitwise only inside one process (FFTW plans)",
 ]
-REQUIRE = {"restart_points": 12, "trajectory_steps_compared": 30, "poison_differential_steps": 10, "helper_directories": 6, "scratch_arrays_poisoned": 50}
+REQUIRE = {"restart_points": 12, "trajectory_steps_compared": 30, "poison_differential_steps": 10, "helper_directories": 6, "helper_clock_mismatch_of_one_small_step": 3, "scratch_arrays_poisoned": 50, "checkpoints_written_over_leftover_files": 12}
 SHARD_TIMEOUT = {"quick": 1700, "thorough": 3400}
 
 SCEN = [
@@ -54,6 +54,10 @@ def shards(tier, seed):
             sc = dict(sc, shape=perms3[(i + seed) % len(perms3)])
         elif "shape" not in sc and (i + seed) % 2 == 1:
             sc = dict(sc, shape=(48, 36))
+        if (i + seed) % 3 != 0:
+            # the working directory already holds checkpoint files of an EARLIER run with the same indices (same dataset names, shapes and
+            # dtypes, other values and times): the run's own saves must replace them entirely
+            sc = dict(sc, leftovers=True)
         if sc["body"] != "rod" and (i + seed) % 2 == 0:
             sc = dict(sc, order="interactor-first", name=sc["name"] + "+interactor-first")
         dts = ["float64", "float32"] if tier == "thorough" else (["float64"] if (i + seed) % 2 == 0 else ["float32"])
@@ -215,6 +219,13 @@ def _run(sh, rec):
         o = build(sc, dtype)
         kick_seed = int(rng.integers(1 << 30))
         initial_kick(o, np.random.default_rng(kick_seed))
+        if sc.get("leftovers"):
+            t_keep = o["flow"].time
+            for k in range(N):
+                o["flow"].time = t_keep - 1.0 - 0.01 * k
+                save_all(o, k)
+                rec.count("checkpoints_written_over_leftover_files")
+            o["flow"].time = t_keep
         traj = [snap(o)]
         for k in range(N):
             save_all(o, k)
@@ -310,7 +321,7 @@ def _helper(sh, rec):
     import sopht.utils as spu
 
     rng = util.rng_for(sh["seed"], "C18helper")
-    nd = 8 if sh["tier"] == "quick" else 40
+    nd = 18 if sh["tier"] == "quick" else 60
     pos = np.stack(np.meshgrid((np.arange(5) + 0.5) * 0.1, (np.arange(6) + 0.5) * 0.1, indexing="ij"))[::-1].copy()
 
     def mk():
@@ -334,7 +345,7 @@ def _helper(sh, rec):
     for case in range(nd):
         with util.TempDir():
             sim, cyl, io, rio, fio, w, g, fg = mk()
-            kind = ["normal", "normal", "none", "clock-mismatch", "widths"][case % 5]
+            kind = ["normal", "normal", "none", "clock-mismatch", "widths", "clock-mismatch"][case % 6]
             pool = [0, 3, 7, 10, 42, 99, 100, 250, 999, 1000, 9999, 10000, 12345]
             idx = sorted(set(int(x) for x in rng.choice(pool, size=int(rng.integers(1, 6)), replace=False)))
             if kind == "widths":
@@ -356,7 +367,13 @@ def _helper(sh, rec):
             latest = max(idx) if idx else None
             if latest is not None:
                 cyl.position_collection[0, 0] = latest
-                tsave = times[latest] if kind != "clock-mismatch" else times[latest] + 0.125
+                # body clock off by a visible amount, or by ONE SMALL STEP late in a run (relative 2e-6 / 7e-6, absolute 4e-9): flow and body
+                # states of different steps must be refused however close their times are
+                tl = times[latest]
+                off = [0.125, tl * 2e-6, 4e-9, -tl * 7e-6][(case // 2) % 4]
+                tsave = tl if kind != "clock-mismatch" else tl + off
+                if kind == "clock-mismatch" and off != 0.125:
+                    rec.count("helper_clock_mismatch_of_one_small_step")
                 ea.save_state(sim, "restart_data", np.float64(tsave))
             sim2, cyl2, io2, rio2, fio2, w2, g2, fg2 = mk()
             rec.count("helper_directories")
